@@ -153,10 +153,53 @@ def threads_set(tier):
                 continue
             p = fp.build(mac, ds, init_ev=True, flavour="Opt" if mac.startswith("try") else None)
             out.append(tprog("%s/%s" % (mac, fp.pname(ds)), p, ds, callers=callers, check_threads=True))
+            if len(ds) >= 2 and max(ds) >= 2 and (tier != "quick" or len(ds) == 2 or ds in ((1, 2, 2), (2, 1, 3))):
+                # every later step is a single deferred operator whose operand is a block capture: the callback the block yields
+                # still runs on the branch's own thread
+                p = fp.build(mac, ds, init_ev=True, capstep=True, flavour="Res" if mac.startswith("try") else None)
+                out.append(tprog("%s/%s/capstep" % (mac, fp.pname(ds)), p, ds, callers=("main", None), check_threads=True))
+    return out + nested_set(tier)
+
+
+NESTED4 = """{mac}! {{
+    lg("0.0.i", 1),
+    lg("1.0.i", 2) ~-> |v: i32| {{
+        ev("1.1.f", &v);
+        let (a, b) = {mac}! {{
+            lg("10.x.i", v),
+            lg("11.x.i", v + 1) ~-> |w: i32| {{ ev("11.y.f", &w); w * 2 }}
+        }};
+        a + b
+    }}
+}}"""
+NESTED4_REF = """{
+    let a0 = lg("0.0.i", 1);
+    let a1 = lg("1.0.i", 2);
+    let a1 = (|v: i32| {
+        ev("1.1.f", &v);
+        let a = lg("10.x.i", v);
+        let b = lg("11.x.i", v + 1);
+        let b = (|w: i32| { ev("11.y.f", &w); w * 2 })(b);
+        a + b
+    })(a1);
+    (a0, a1)
+}"""
+# the lone second step of branch 1 runs on the CALLER: the inner macro's threads are the caller's `_join_0` / `_join_1`, its own lone
+# second step runs on the caller again
+NESTED4_NAMES = [("0.", "_join_0"), ("1.0", "_join_1"), ("1.1", ""), ("10.", "_join_0"), ("11.x", "_join_1"), ("11.y", "")]
+
+
+def nested_set(tier):
+    """thread-spawning macros nested in operands of each other: thread names compose, and who evaluates a step does not depend on the
+    nesting (C08 names, C17 nesting)"""
+    out = []
+    callers = ("main", "w7", None)
     for mac in ("join_spawn", "spawn"):
         fmt = '\nev0("end.99.z"); format!("{:?}", x)'
         out.append(TProg("nested2/%s" % mac, "let x = %s;%s" % (NESTED2_REF, fmt), "let x = %s;%s" % (NESTED2.format(mac=mac), fmt),
                          callers=callers, names=NESTED2_NAMES, meta={"macro": mac, "dsl": NESTED2.format(mac=mac), "ref": NESTED2_REF}))
+        out.append(TProg("nested4/%s" % mac, "let x = %s;%s" % (NESTED4_REF, fmt), "let x = %s;%s" % (NESTED4.format(mac=mac), fmt),
+                         callers=callers, names=NESTED4_NAMES, meta={"macro": mac, "dsl": NESTED4.format(mac=mac), "ref": NESTED4_REF}))
         if tier != "quick" or mac == "join_spawn":
             out.append(TProg("nested3/%s" % mac, "let x = %s;%s" % (NESTED3_REF, fmt), "let x = %s;%s" % (NESTED3.format(mac=mac), fmt),
                              callers=callers, names=NESTED3_NAMES, meta={"macro": mac, "dsl": NESTED3.format(mac=mac), "ref": NESTED3_REF}))
@@ -200,4 +243,4 @@ def tryfail_set(tier):
 
 
 def all_sets(tier):
-    return {"c03": barrier_set(tier) + opstep_set(tier), "c08": threads_set(tier), "c18": panic_set(tier), "c05": tryfail_set(tier)}
+    return {"c03": barrier_set(tier) + opstep_set(tier), "c08": threads_set(tier), "c17": nested_set(tier), "c18": panic_set(tier), "c05": tryfail_set(tier)}
